@@ -28,6 +28,10 @@ import (
 
 type scenario func(n *nodis.Nodis, r *rand.Rand, rounds int) string
 
+// traceWiden: percentage of eviction-pass steps that are delayed between their look at a record and
+// its lock while a trace is being recorded
+var traceWiden int32
+
 // progress is bumped at every marked point of the locking protocol: a run is hung when it stops
 // moving, not when it is slow
 var progress uint64
@@ -360,7 +364,7 @@ func scMix(n *nodis.Nodis, r *rand.Rand, rounds int) string {
 	par(10, func(w int) {
 		rr := rand.New(rand.NewSource(int64(w) + r.Int63()))
 		for j := 0; j < rounds; j++ {
-			switch rr.Intn(16) {
+			switch rr.Intn(18) {
 			case 0:
 				n.Rename("x", "y")
 			case 1:
@@ -393,6 +397,21 @@ func scMix(n *nodis.Nodis, r *rand.Rand, rounds int) string {
 				n.SAdd("s1", "m")
 			case 14:
 				n.Expire("x", 100)
+			case 15:
+				// keyspace readers against keys with a deadline that come and go
+				switch rr.Intn(5) {
+				case 0:
+					n.RandomKey()
+				case 1:
+					n.SetEX("tt", []byte("v"), 100)
+				case 2:
+					n.Del("tt")
+				case 3:
+					n.Keyspace()
+				default:
+					n.Rename("tt", "tu")
+					n.Del("tu")
+				}
 			default:
 				n.RPush("p", []byte("z"))
 				n.LPop("p", 1)
@@ -403,9 +422,58 @@ func scMix(n *nodis.Nodis, r *rand.Rand, rounds int) string {
 	return fmt.Sprintf("ok ops=%d", ops)
 }
 
+// a key whose deadline has passed but which has not been collected yet is re-created by N
+// concurrent INCRs while eviction passes run: the counter ends at N
+func scExpiredRecreate(n *nodis.Nodis, r *rand.Rand, rounds int) string {
+	stop := make(chan struct{})
+	var wg sync.WaitGroup
+	for g := 0; g < 3; g++ {
+		wg.Add(1)
+		go func() {
+			defer wg.Done()
+			for {
+				select {
+				case <-stop:
+					return
+				default:
+					n.VerifGC()
+				}
+			}
+		}()
+	}
+	defer func() { close(stop); wg.Wait() }()
+	for round := 0; round < rounds; round++ {
+		const keys, workers = 6, 8
+		for k := 0; k < keys; k++ {
+			n.SetPX(fmt.Sprintf("x%d-%d", round, k), []byte("100"), 1)
+		}
+		time.Sleep(2 * time.Millisecond)
+		var bad atomic.Value
+		par(workers, func(w int) {
+			for k := 0; k < keys; k++ {
+				key := fmt.Sprintf("x%d-%d", round, (k+w)%keys)
+				if _, err := n.Incr(key); err != nil {
+					bad.Store(fmt.Sprintf("INCR %s: %v", key, err))
+				}
+			}
+		})
+		if s := bad.Load(); s != nil {
+			return fmt.Sprintf("FAIL %s (round %d)", s, round)
+		}
+		for k := 0; k < keys; k++ {
+			key := fmt.Sprintf("x%d-%d", round, k)
+			if got := string(n.Get(key)); got != strconv.Itoa(workers) {
+				return fmt.Sprintf("FAIL %d concurrent INCRs re-created the expired key %s while eviction passes were running; GET returned %q, EXISTS = %d (round %d): acknowledged updates were lost", workers, key, got, n.Exists(key), round)
+			}
+			n.Del(key)
+		}
+	}
+	return fmt.Sprintf("ok rounds=%d", rounds)
+}
+
 var scenarios = map[string]scenario{
 	"incr-fresh": scIncrFresh, "push-pop": scPushPop, "push-vs-empty": scPushVsEmpty, "create-delete": scCreateDelete,
-	"smove": scSMove, "rotate": scRotate, "rename": scRename, "mix": scMix,
+	"expired-recreate": scExpiredRecreate, "smove": scSMove, "rotate": scRotate, "rename": scRename, "mix": scMix,
 }
 
 func stressOp(toks []string) string {
@@ -566,6 +634,12 @@ func (tr *tracer) hook(ev string, who any, key string, m any, flag bool) {
 		r := tr.rec(m, false)
 		switch ev {
 		case "wait":
+			if w := atomic.LoadInt32(&traceWiden); w > 0 && int(tr.nextTx)%100 < int(w) {
+				// let a command slip in between the eviction pass's look at the record and its lock
+				tr.mu.Unlock()
+				time.Sleep(30 * time.Microsecond)
+				tr.mu.Lock()
+			}
 			tr.nextTx++
 			mt := &miniTx{id: tr.nextTx}
 			tr.mini[who] = mt
@@ -639,6 +713,9 @@ func b01(b bool) string {
 // ptrace <scenario> <seed> <rounds> <widen> <outfile>: run a scenario while recording the protocol trace
 func ptraceOp(toks []string) string {
 	tr := newTracer()
+	if w, err := strconv.Atoi(toks[4]); err == nil {
+		atomic.StoreInt32(&traceWiden, int32(w))
+	}
 	nodis.VerifTraceHook = tr.hook
 	res := stressOp(toks[:5])
 	nodis.VerifTraceHook = nil
@@ -1028,7 +1105,8 @@ func scTCPMix(addr string, n *nodis.Nodis, rounds int) string {
 		{"SMOVE", "s1", "s2", "m"}, {"SMOVE", "s2", "s1", "m"}, {"SUNIONSTORE", "s1", "s1", "s2"}, {"SINTERSTORE", "s2", "s1", "s2"},
 		{"ZUNIONSTORE", "z1", "2", "z1", "z2"}, {"ZADD", "z2", "1", "a"}, {"DEL", "x", "y"}, {"SET", "x", "1"}, {"MSET", "x", "1", "y", "2"},
 		{"MGET", "y", "x"}, {"EXISTS", "y", "x", "p"}, {"KEYS", "*"}, {"SCAN", "0"}, {"RPUSH", "p", "a"}, {"LPOP", "q"}, {"SADD", "s1", "m"},
-		{"DBSIZE"}, {"FLUSHDB"}, {"EXPIRE", "x", "100"}, {"RENAME", "x", "x"}, {"TYPE", "p"}, {"LPUSH", "x", "wrongtype"}, {"INCR", "p"},
+		{"DBSIZE"}, {"FLUSHDB"}, {"EXPIRE", "x", "100"}, {"RANDOMKEY"}, {"RANDOMKEY"}, {"SETEX", "tt", "100", "v"}, {"DEL", "tt"}, {"SETEX", "tt", "100", "w"}, {"INFO"},
+		{"EXPIRE", "p", "100"}, {"LPOP", "p"}, {"PERSIST", "x"}, {"TTL", "tt"}, {"RENAME", "x", "x"}, {"TYPE", "p"}, {"LPUSH", "x", "wrongtype"}, {"INCR", "p"},
 	}
 	var done int64
 	var bad atomic.Value
@@ -1311,6 +1389,8 @@ func attackPayloads(r *rand.Rand) [][]byte {
 		{"SCAN", "#"}, {"SCAN", "0", "COUNT", "#"}, {"SSCAN", "sk", "#", "COUNT", "#"}, {"SSCAN", "sk", "0", "COUNT", "#"}, {"HSCAN", "hk", "0", "COUNT", "#"}, {"ZSCAN", "zk", "0", "COUNT", "#"},
 		{"GETRANGE", "k", "#", "#"}, {"GETRANGE", "k", "0", "#"}, {"SETRANGE", "k", "#", "x"}, {"SETBIT", "k", "#", "1"}, {"GETBIT", "k", "#"}, {"BITCOUNT", "k", "#", "#"},
 		{"INCRBY", "k", "#"}, {"HINCRBY", "hk", "f", "#"}, {"EXPIRE", "k", "#"}, {"PEXPIRE", "k", "#"}, {"EXPIREAT", "k", "#"}, {"SETEX", "k2", "#", "v"},
+		{"SET", "a", "v", "PXAT", "#"}, {"SET", "a", "v", "EXAT", "#"}, {"SET", "", "v", "PXAT", "#"}, {"SET", "a", "v", "PX", "#"}, {"SET", "a", "v", "EX", "#"},
+		{"PEXPIREAT", "a", "#"}, {"EXPIREAT", "", "#"}, {"EXPIREAT", "a", "9223372036854775"}, {"SET", "a", "v", "EXAT", "9223372036854775"},
 		{"ZINCRBY", "zk", "#", "a"}, {"ZADD", "zk", "#", "m"}, {"BLPOP", "nokey", "#"}, {"GEORADIUS", "gk", "1", "1", "#", "km"}, {"ZUNIONSTORE", "d", "#", "zk"}, {"ZINTERSTORE", "d", "#", "zk"},
 		{"HRANDFIELD", "hk", "#"}, {"LPOS", "ak", "a", "COUNT", "#"}, {"COPY", "k", "#"}, {"SELECT", "#"},
 	}
@@ -1392,6 +1472,22 @@ func scHostile(n *nodis.Nodis, r *rand.Rand, rounds int) string {
 		atomic.AddUint64(&progress, 1)
 		return ""
 	}
+	// the stock server evicts and flushes in the background: whatever the attacks stored (extreme
+	// deadlines, huge members, empty names) goes through the storage encoders there, outside any
+	// command's recover
+	stopGC := make(chan struct{})
+	defer close(stopGC)
+	go func() {
+		for {
+			select {
+			case <-stopGC:
+				return
+			case <-time.After(20 * time.Millisecond):
+				n.VerifGC()
+				n.VerifFlush()
+			}
+		}
+	}()
 	payloads := attackPayloads(r)
 	for round := 0; round < rounds; round++ {
 		for i, p := range payloads {
